@@ -1,5 +1,5 @@
 (* IIndex/OpsB.v - executable models of the "transformed copies" half of the iindex operations
-   (src/catii/iindexes.py, current HEAD incl. repairs F7-F11):
+   (src/catii/iindexes.py, current HEAD incl. repairs F7-F11 and F23):
      sliced, slices1d, reindexed, collapsed, column_stack, __eq__/__ne__.
    DEFINITIONS ONLY (proofs: OpsBFacts.v, OpsBProofs_*.v, EqProofs.v).
 
@@ -255,6 +255,13 @@ Definition arr_dec_all (w : Z) (ls : list (list Z)) (a : arr) : arr :=
 Definition lists_of (g : list (Z * list (list Z))) (k : Z) : list (list Z) :=
   match g_get Z.eqb k g with Some ls => ls | None => [] end.
 
+(* list(dict.fromkeys(precedence)): the first occurrence of every value, in order (F23 repair) *)
+Fixpoint dedup_keep (seen l : list Z) : list Z :=
+  match l with
+  | [] => []
+  | x :: l' => if memZ x seen then dedup_keep seen l' else x :: dedup_keep (x :: seen) l'
+  end.
+
 (* state of the reverse-precedence loop: output, common_count (None = the local variable was
    never assigned), common_has_been_written *)
 Record cstate := { c_out : arr; c_cc : option arr; c_chbw : bool }.
@@ -265,14 +272,16 @@ Definition collapse_step (dt : dtype) (w nc : Z) (g : list (Z * list (list Z)))
   | Err e => Err e
   | Ok s =>
     if coord =? nc then
-      match c_cc s with
-      | None => Err EOther                              (* UnboundLocalError: common_count *)
-      | Some cc =>
-        if fits dt coord
-        then Ok {| c_out := fun r => if cc r =? 0 then c_out s r else coord;   (* output[common_count != 0] = coord *)
-                   c_cc := c_cc s; c_chbw := true |}
-        else Err EOverflow
-      end
+      if c_chbw s then Ok s                                (* `if not common_has_been_written:` *)
+      else
+        match c_cc s with
+        | None => Err EOther                              (* UnboundLocalError: common_count *)
+        | Some cc =>
+          if fits dt coord
+          then Ok {| c_out := fun r => if cc r =? 0 then c_out s r else coord;   (* output[common_count != 0] = coord *)
+                     c_cc := c_cc s; c_chbw := true |}
+          else Err EOverflow
+        end
     else
       fold_left (fun st rows =>
                    match st with
@@ -293,6 +302,9 @@ Definition collapse_gather (f : Z -> Z) (nc : Z) (es : list entry) : list (Z * l
   fold_left (fun g e => let w := f (fst (fst e)) in
                         if w =? nc then g else g_append Z.eqb w (snd e) g) es [].
 
+(* current HEAD incl. repair F23: a value listed more than once counts at its first position only
+   (`ordered`); the per-row counter is set up exactly when some row may have to obtain the common value
+   without being listed under it; the loop runs over ALL of reversed(ordered). *)
 Definition collapse_output (idx : iindex) (ncols : Z) (prec : list Z) (f : Z -> Z) : res (list Z) :=
   let nc := f (common idx) in
   let g := collapse_gather f nc (entries idx) in
@@ -303,17 +315,18 @@ Definition collapse_output (idx : iindex) (ncols : Z) (prec : list Z) (f : Z -> 
     let default := last prec 0 in
     if negb (fits dt default) then Err EOverflow
     else
+      let ordered := dedup_keep [] prec in
       let cdt := fit_dtype ncols 0 in
       let w := width cdt in
       let init : res cstate :=
-        if default =? nc then Ok {| c_out := fun _ => default; c_cc := None; c_chbw := true |}
-        else if negb (fits cdt ncols) then Err EOverflow
-        else
-          let cc0 : arr := fun _ => ncols in
-          let cc1 := arr_dec_all w (lists_of g default) cc0 in
-          let cc2 := fold_left (fun cc kl => if memZ (fst kl) prec then cc else arr_dec_all w (snd kl) cc) g cc1 in
-          Ok {| c_out := fun _ => default; c_cc := Some cc2; c_chbw := false |} in
-      match fold_left (collapse_step dt w nc g) (rev (removelast prec)) init with
+        if memZ nc ordered && (negb (default =? nc) || negb (last ordered 0 =? nc)) then
+          if negb (fits cdt ncols) then Err EOverflow
+          else
+            let cc0 : arr := fun _ => ncols in
+            let cc1 := fold_left (fun cc kl => if memZ (fst kl) ordered then cc else arr_dec_all w (snd kl) cc) g cc0 in
+            Ok {| c_out := fun _ => default; c_cc := Some cc1; c_chbw := false |}
+        else Ok {| c_out := fun _ => default; c_cc := None; c_chbw := true |} in
+      match fold_left (collapse_step dt w nc g) (rev ordered) init with
       | Err e => Err e
       | Ok s => Ok (map (c_out s) (zrange (nrows idx)))
       end
